@@ -6,6 +6,7 @@ import (
 	"go/token"
 	"go/types"
 	"regexp/syntax"
+	"strings"
 
 	"golang.org/x/tools/go/ssa"
 )
@@ -132,6 +133,10 @@ func (l *Lin) resolve(v ssa.Value) (ssa.Value, *MemVal) {
 			continue
 		case *ssa.UnOp:
 			if x.Op == token.MUL {
+				// every load of a package variable that is only assigned by its initialiser denotes the same value
+				if g, isG := x.X.(*ssa.Global); isG && l.P != nil && l.P.WriteOnceGlobal(g) {
+					return g, nil
+				}
 				if mv, ok := l.FM.Loads[x]; ok {
 					if mv.Kind == MStore {
 						v = mv.Val
@@ -1296,4 +1301,93 @@ func (l *Lin) intrinsicNonNeg(v ssa.Value) bool {
 		}
 	}
 	return false
+}
+
+// ImportCallContext carries over to l (the prover of a function with a single caller) what the caller's system
+// proves at the call about the things both sides can name: integer arguments, lengths and capacities of slice
+// arguments, and lengths / values of fields of pointer arguments that are never stored after construction.
+// It returns the number of facts imported. Sound only if call is the function's only caller.
+func (l *Lin) ImportCallContext(caller *Lin, call ssa.CallInstruction) int {
+	type pair struct {
+		ct  Term
+		co  int64 // caller value = ct + co
+		cal Term
+	}
+	var ps []pair
+	args := call.Common().Args
+	for i, p := range l.Fn.Params {
+		if i >= len(args) {
+			break
+		}
+		a := args[i]
+		switch t := p.Type().Underlying().(type) {
+		case *types.Basic:
+			if t.Info()&types.IsInteger != 0 {
+				ct, co := caller.Expr(a)
+				ps = append(ps, pair{ct, co, Term{K: TVal, V: p}})
+			}
+		case *types.Slice:
+			ps = append(ps, pair{caller.LenOf(a), 0, Term{K: TLen, V: p}})
+			ps = append(ps, pair{caller.CapOf(a), 0, Term{K: TCap, V: p}})
+		case *types.Pointer:
+			prefix := "param:" + p.Name() + "."
+			cbase := caller.FM.baseKeyOf(a, 0)
+			for key, e := range l.FM.entries {
+				if !strings.HasPrefix(key, prefix) {
+					continue
+				}
+				owner := ""
+				if e.Base != nil {
+					if pt, ok := e.Base.Type().Underlying().(*types.Pointer); ok {
+						if n, ok := pt.Elem().(*types.Named); ok {
+							owner = n.Obj().Name()
+						}
+					}
+				}
+				if owner == "" || l.Mods == nil || l.Mods.storedAfterConstruction(owner, e.Field) {
+					continue
+				}
+				ce, ok := caller.FM.entries[cbase+"."+strings.TrimPrefix(key, prefix)]
+				if !ok {
+					continue
+				}
+				ps = append(ps, pair{Term{K: TLen, M: ce}, 0, Term{K: TLen, M: e}})
+				ps = append(ps, pair{Term{K: TVal, M: ce}, 0, Term{K: TVal, M: e}})
+			}
+		}
+	}
+	if len(ps) == 0 {
+		return 0
+	}
+	var seeds []Term
+	for _, q := range ps {
+		seeds = append(seeds, q.ct)
+	}
+	sys := caller.build(call, nil, seeds)
+	n := 0
+	zi := sys.id(Zero)
+	for _, x := range ps {
+		xi := sys.id(x.ct)
+		// against zero
+		if d := sys.d[xi][zi]; d < inf {
+			l.Assume = append(l.Assume, fact{x.cal, Zero, d + x.co, "call-site context"})
+			n++
+		}
+		if d := sys.d[zi][xi]; d < inf {
+			l.Assume = append(l.Assume, fact{Zero, x.cal, d - x.co, "call-site context"})
+			n++
+		}
+		for _, y := range ps {
+			if x.cal.key() == y.cal.key() {
+				continue
+			}
+			yi := sys.id(y.ct)
+			if d := sys.d[xi][yi]; d < inf {
+				// (x.ct + x.co) - (y.ct + y.co) <= d + x.co - y.co
+				l.Assume = append(l.Assume, fact{x.cal, y.cal, d + x.co - y.co, "call-site context"})
+				n++
+			}
+		}
+	}
+	return n
 }
